@@ -4,8 +4,6 @@ import os
 
 VERIF = os.path.dirname(os.path.dirname(os.path.abspath(__file__)))
 
-# pid -> (technique, level text, level note, design ref)
-CLAIMED = {}
 
 NOT_APPLICABLE = {
     "C18": "accuracy of hypergeometric moment matching against numerical integration: no state, ordering or exact "
@@ -15,11 +13,7 @@ NOT_APPLICABLE = {
 }
 
 
-def claim(pid, technique, text, note, ref="7"):
-    CLAIMED[pid] = (technique, text, note, ref)
-
-
-from . import registry  # noqa: E402,F401  (fills CLAIMED)
+from .registry import CLAIMED  # noqa: E402
 
 
 def build():
